@@ -448,3 +448,19 @@ func (l *Lab) answer(req *Request) {
 	req.Result = res
 	req.Response = res.HTTPBody()
 }
+
+// Validate checks an operation against the supergraph with the repo's own validator.
+func (l *Lab) Validate(operation string) error {
+	req := &graphql.Request{Query: operation}
+	res, err := req.ValidateForSchema(l.Schema)
+	if err != nil {
+		return err
+	}
+	if !res.Valid {
+		return res.Errors
+	}
+	return nil
+}
+
+// Trunc shortens a string for messages.
+func Trunc(s string, n int) string { return trunc(s, n) }
